@@ -63,6 +63,12 @@ TRace2 == TP("race2", << D(5, R, "a"), L(6, R, "l", <<"a">>), D(7, 5, "b") >>,
 TRace3 == TP("race3", << D(5, R, "a"), D(6, 5, "b"), L(7, 6, "up", <<"..", "..">>) >>,
              { <<"a", "b", "up">>, <<"a", "b", "up", "a">> })
 const_TreesRace == <<TRace1, TRace2, TRace3>>
+
+\* ---- link budgets at their REAL values (40 kernel, 128 emulated): one chain l1 -> d, l(i) -> l(i-1) ----
+LName(i) == "l" \o ToString(i)
+ChainNodes(n) == << D(5, R, "d") >> \o [i \in 1..n |-> L(5 + i, R, LName(i), << IF i = 1 THEN "d" ELSE LName(i - 1) >>)]
+TBudget == TP("budget", ChainNodes(130), { <<LName(i)>> : i \in {1, 39, 40, 41, 126, 127, 128, 129} } \cup { <<LName(40), "..", LName(1)>> })
+const_TreesBudget == <<TBudget>>
 const_TreesGen   == Catalogue \o GenSeq
 
 Acc(a, d) == [acc |-> a, odir |-> d]
